@@ -182,6 +182,22 @@ pub fn run_state_case<T: Sc>(out: Option<&mut Out>, c: &StateCase<T>, fault: Opt
         if fault.is_none() {
             emit_outputs(out, "again", prob.as_ref());
         }
+        // a CLONE of the problem, moved to other parameters, must behave like a fresh problem there and
+        // must leave the original alone (the following steps of the original are compared as usual)
+        if i == 0 && fault.is_none() && !c.built {
+            if let Some(mut cl) = prob.try_clone() {
+                let alt: Vec<T> = c.init.iter().map(|v| *v * T::of(1.0625)).collect();
+                let altv = DVector::from_vec(alt.clone());
+                if guarded(|| cl.set(&altv)).is_ok() {
+                    emit_outputs(out, "clone", cl.as_ref());
+                    let probe3 = Probe::new();
+                    let model3 = make_model::<T>(&c.recipe, &alt, c.built, &probe3);
+                    if let Ok(Ok(fresh)) = guarded(|| build_problem(c.flavour, model3, &c.y, wv.as_ref(), c.eps)) {
+                        emit_outputs(out, "cfresh", fresh.as_ref());
+                    }
+                }
+            }
+        }
         // a freshly built problem at the parameters the problem reports (history-free twin)
         if i % 2 == 1 || i + 1 == c.history.len() || fault.is_some() || c.origin != "random" {
             let probe2 = Probe::new();
